@@ -84,6 +84,12 @@ def run(C, R):
         for path in paths:
             effects = [e for e in path.events if e['k'] in ('write', 'qop', 'call', 'wake', 'take', 'update_waker',
                                                             'drop', 'lock')]
+            if reset['path'] in F.alias_fns:
+                # the public method is the transition itself: taking / releasing the lock is its frame, not an effect
+                effects = [e for e in effects if not (
+                    e['k'] == 'lock' or (e['k'] == 'drop' and 'MutexGuard' in str(e.get('ty')))
+                    or (e['k'] == 'call' and (e.get('name') in ('deref', 'deref_mut', 'lock') or
+                                              'MutexGuard' in str(e.get('callee')))))]
             good = (len(effects) == 1 and effects[0]['k'] == 'write' and loc_endswith(effects[0]['loc'], 'is_set')
                     and effects[0]['val'] == ('const', 0) and path.exit == 'return')
             if good:
@@ -136,8 +142,11 @@ def run(C, R):
         w4_pending_stores_waker(R, E, F, tw, paths, 'C14.R3w')
         w4_helper(R, E, F, 'C14.R3h')
         # R4
-        isf = F.one_fn(impl_adt=STATE, name='is_set')
-        for path in E.run(isf['path']):
+        isfs = [f for f in F.methods_of(STATE) if f.get('name') == 'is_set']
+        if not isfs:
+            R.observe('C14.R4: EventState has no is_set() getter of its own (folded into the public method, judged below)')
+        isf = isfs[0] if isfs else None
+        for path in (E.run(isf['path']) if isf else []):
             if path.ret == IS_SET and not [e for e in path.events if e['k'] == 'write']:
                 R.ok('C14.R4', isf['path'])
             else:
@@ -151,6 +160,10 @@ def run(C, R):
         # the public set/reset forward to the state functions
         for nm in ('set', 'reset'):
             pubf = F.one_fn(impl_adt=EVENT, name=nm)
+            if pubf['path'] in F.alias_fns:
+                # the state function was folded into the public one, which was judged above as the transition itself
+                R.ok('C14.R4', '%s is the transition itself' % pubf['path'])
+                continue
             ps = E.run(pubf['path'])
             R.add_paths(pubf['path'], len(ps))
             hit = any(any(e['k'] == 'call' and e['callee'].endswith('EventState::' + nm) for e in p.events) for p in ps)
